@@ -42,7 +42,18 @@ type KV struct {
 	V Arg
 }
 
+// FloatOracle: strconv.ParseFloat of one number token, at both bit sizes
+// (status 0 ok, 1 range error, 2 syntax error)
+type FloatOracle struct {
+	Tok      []byte
+	S32, S64 int
+	B32, B64 uint64
+}
+
 type Step struct {
+	Alnum              []int32       // SML: non-ASCII runes of the input that are letters or digits
+	Floats             []FloatOracle // SML: ParseFloat of the number tokens
+	Idx                int
 	Op                 string
 	W                  int
 	Args               []Arg
@@ -156,9 +167,72 @@ func (s Step) text(sb *strings.Builder) {
 		fmt.Fprintf(sb, "%d %02x %02x %s %02x ", s.Sid, s.B1, s.B2, hx(s.Sys), s.B3)
 	case "HB":
 		fmt.Fprintf(sb, "%s %d ", hx(s.S), s.N)
+	case "SP":
+		fmt.Fprintf(sb, "%s %s %s ", hx(s.S), alnumText(s.Alnum), floatsText(s.Floats))
+	case "SX":
+		fmt.Fprintf(sb, "%s %s ", hx(s.S), alnumText(s.Alnum))
+	case "PK":
+		fmt.Fprintf(sb, "%d %d ", s.Ref, s.Idx)
 	default:
 		panic("unknown op " + s.Op)
 	}
+}
+
+func alnumText(a []int32) string {
+	if len(a) == 0 {
+		return "-"
+	}
+	parts := make([]string, len(a))
+	for i, r := range a {
+		parts[i] = strconv.Itoa(int(r))
+	}
+	return strings.Join(parts, ",")
+}
+
+func floatsText(fs []FloatOracle) string {
+	if len(fs) == 0 {
+		return "-"
+	}
+	parts := make([]string, len(fs))
+	for i, f := range fs {
+		parts[i] = fmt.Sprintf("%s:%d:%d:%d:%d", hx(f.Tok), f.S32, f.B32, f.S64, f.B64)
+	}
+	return strings.Join(parts, ";")
+}
+
+func parseAlnum(s string) []int32 {
+	if s == "-" {
+		return nil
+	}
+	var r []int32
+	for _, p := range strings.Split(s, ",") {
+		n, err := strconv.Atoi(p)
+		must(err)
+		r = append(r, int32(n))
+	}
+	return r
+}
+
+func parseFloats(s string) []FloatOracle {
+	if s == "-" {
+		return nil
+	}
+	var r []FloatOracle
+	for _, p := range strings.Split(s, ";") {
+		f := strings.Split(p, ":")
+		var o FloatOracle
+		if f[0] != "-" {
+			b, err := hex.DecodeString(f[0])
+			must(err)
+			o.Tok = b
+		}
+		o.S32, _ = strconv.Atoi(f[1])
+		o.B32, _ = strconv.ParseUint(f[2], 10, 64)
+		o.S64, _ = strconv.Atoi(f[3])
+		o.B64, _ = strconv.ParseUint(f[4], 10, 64)
+		r = append(r, o)
+	}
+	return r
 }
 
 func caseText(steps []Step) string {
@@ -333,6 +407,16 @@ func parseCase(text string) []Step {
 		case "HB":
 			s.S = t.hexs()
 			s.N = t.i64()
+		case "SP":
+			s.S = t.hexs()
+			s.Alnum = parseAlnum(t.next())
+			s.Floats = parseFloats(t.next())
+		case "SX":
+			s.S = t.hexs()
+			s.Alnum = parseAlnum(t.next())
+		case "PK":
+			s.Ref = t.int()
+			s.Idx = t.int()
 		default:
 			panic("case text: unknown op " + s.Op)
 		}
